@@ -30,6 +30,7 @@ type proc struct {
 // Pool is a set of worker processes.
 type Pool struct {
 	N        int
+	Bin      string // binary to run (default: this binary)
 	Args     []string
 	Env      []string
 	mu       sync.Mutex
@@ -43,7 +44,11 @@ func NewPool(n int, args ...string) *Pool {
 }
 
 func (p *Pool) start() (*proc, error) {
-	cmd := exec.Command(os.Args[0], p.Args...)
+	bin := p.Bin
+	if bin == "" {
+		bin = os.Args[0]
+	}
+	cmd := exec.Command(bin, p.Args...)
 	cmd.Env = append(os.Environ(), "GOMAXPROCS=2", "VERIF_CHILD=1")
 	cmd.Env = append(cmd.Env, p.Env...)
 	in, err := cmd.StdinPipe()
